@@ -9,7 +9,7 @@ Main result (fully proved, no `sorry`, axioms `propext`, `Classical.choice`, `Qu
 `WFfen p` describes the normal forms of the reader (`TextIO::readFEN`, textio.cpp:34-190): piece codes ≤ 12, no pawn
 on ranks 1/8, exactly one king per side, the side not to move is not in check, castling bits < 16 and only with king
 and rook at home, the e.p. square plausible (right rank, empty, enemy pawn behind it) and kept by `fixupEP`,
-both counters < 2^31 (`std::stoi` range).  `WFfen` is decidable.
+both counters < 65536 (the repaired reader clamps to 0..65535).  `WFfen` is decidable.
 
 Component lemmas (each usable on its own by the differential check):
 * (a) castling field  — `parseCastle_castleToString`
@@ -453,6 +453,13 @@ def epField (b : Board) (wtm : Bool) (rest : List Char) : Except FenErr (Option 
       else
         if e.y != 2 || b[e] != 0 || g (e.val + 8) != WPAWN then pure none else pure (some e)
 
+/-- a printed counter below the clamp bound is read back unchanged -/
+theorem counterOfWord_toDigits (n : Nat) (h : n < 65536) (d : Int) : counterOfWord (Nat.toDigits 10 n) d = (n : Int) := by
+  unfold counterOfWord
+  rw [stoi_toDigits n (by omega)]
+  simp only [clampCounter, maxMoveCounter]
+  omega
+
 /-- the tail of `readFENRaw`: king counts, king-capture test, `fixupEP` -/
 def fenFinish (b : Board) (wtm : Bool) (cm : UInt8) (ep : Option Sq) (hmc fmc : Int) : Except FenErr RawPos :=
   if countPc b WKING != 1 then .error .whiteKings
@@ -474,10 +481,10 @@ def fenReadRest (b : Board) (sc : Char) (rest : List Char) : Except FenErr RawPo
   let ep ← epField b wtm rest
   let rest := skipSpaces rest'
   let (hw, rest) := takeWord rest
-  let hmc : Int := if hw.isEmpty then 0 else (stoi hw).getD 0
+  let hmc : Int := if hw.isEmpty then 0 else counterOfWord hw 0
   let rest := skipSpaces rest
   let (fw, _) := takeWord rest
-  let fmc : Int := if fw.isEmpty then 1 else (stoi fw).getD 1
+  let fmc : Int := if fw.isEmpty then 1 else counterOfWord fw 1
   fenFinish b wtm cm ep hmc fmc
 
 /-- the staged reader is the original reader, by definitional unfolding -/
@@ -495,7 +502,7 @@ theorem fenReadRest_words (b : Board) (sc : Char) (cw epw hw fw : List Char)
     fenReadRest b sc (' ' :: (cw ++ ' ' :: (epw ++ ' ' :: (hw ++ ' ' :: fw)))) =
       (parseCastle cw 0).bind fun cm =>
         (epField b (sc == 'w') (epw ++ ' ' :: (hw ++ ' ' :: fw))).bind fun ep =>
-          fenFinish b (sc == 'w') (castleFix b cm) ep ((stoi hw).getD 0) ((stoi fw).getD 1) := by
+          fenFinish b (sc == 'w') (castleFix b cm) ep (counterOfWord hw 0) (counterOfWord fw 1) := by
   have hhe : hw.isEmpty = false := by cases hw <;> simp_all
   have hfe : fw.isEmpty = false := by cases fw <;> simp_all
   have h4 : skipSpaces (' ' :: fw) = fw := by simpa using skipSpaces_word fw [] hf0 hf
@@ -525,8 +532,8 @@ structure WFfen (p : Pos) : Prop where
   castleq : p.castle &&& 4 ≠ 0 → p.b[60] = BKING ∧ p.b[56] = BROOK
   epOk : ∀ e : Sq, p.ep = some e → epPlausible p.b p.wtm e
   epLegal : (fixupEP { p with hmc := 0, fmc := 1 }).ep = p.ep
-  hmcLt : p.hmc < 2 ^ 31
-  fmcLt : p.fmc < 2 ^ 31
+  hmcLt : p.hmc < 65536      -- the reader clamps counters to 0..65535 (repaired readFEN)
+  fmcLt : p.fmc < 65536
 
 instance (p : Pos) : Decidable (WFfen p) :=
   decidable_of_iff
@@ -535,7 +542,7 @@ instance (p : Pos) : Decidable (WFfen p) :=
      (p.castle &&& 2 ≠ 0 → p.b[4] = WKING ∧ p.b[7] = WROOK) ∧ (p.castle &&& 1 ≠ 0 → p.b[4] = WKING ∧ p.b[0] = WROOK) ∧
      (p.castle &&& 8 ≠ 0 → p.b[60] = BKING ∧ p.b[63] = BROOK) ∧ (p.castle &&& 4 ≠ 0 → p.b[60] = BKING ∧ p.b[56] = BROOK) ∧
      (∀ e : Sq, p.ep = some e → epPlausible p.b p.wtm e) ∧
-     (fixupEP { p with hmc := 0, fmc := 1 }).ep = p.ep ∧ p.hmc < 2 ^ 31 ∧ p.fmc < 2 ^ 31)
+     (fixupEP { p with hmc := 0, fmc := 1 }).ep = p.ep ∧ p.hmc < 65536 ∧ p.fmc < 65536)
     ⟨fun ⟨a, b, c, d, e, f, g, h, i, j, k, l, m, n⟩ => ⟨a, b, c, d, e, f, g, h, i, j, k, l, m, n⟩,
      fun w => ⟨w.codes, w.pawns, w.wking, w.bking, w.notInCheck, w.castleLt, w.castleK, w.castleQ, w.castlek,
                w.castleq, w.epOk, w.epLegal, w.hmcLt, w.fmcLt⟩⟩
@@ -689,7 +696,7 @@ theorem readFENRaw_toFEN (p : Pos) (w : WFfen p) :
   obtain ⟨h0, h1⟩ := digits_words p.hmc
   obtain ⟨f0, f1⟩ := digits_words p.fmc
   rw [fenReadRest_words _ _ _ _ _ _ c0 c1 e0 e1 h0 h1 f0 f1, parseCastle_castleToString _ w.castleLt]
-  simp only [Except.bind, hwtm, castleFix_id p w, stoi_toDigits _ w.hmcLt, stoi_toDigits _ w.fmcLt, Option.getD_some]
+  simp only [Except.bind, hwtm, castleFix_id p w, counterOfWord_toDigits _ w.hmcLt, counterOfWord_toDigits _ w.fmcLt]
   have hep : epField p.b p.wtm (epChars p.ep ++ ' ' :: (Nat.toDigits 10 p.hmc ++ ' ' :: Nat.toDigits 10 p.fmc)) = .ok p.ep := by
     cases hpe : p.ep with
     | none => exact epField_dash _ _ _
@@ -754,8 +761,8 @@ structure WFfenPre (p : Pos) : Prop where
   castlek : p.castle &&& 8 ≠ 0 → p.b[60] = BKING ∧ p.b[63] = BROOK
   castleq : p.castle &&& 4 ≠ 0 → p.b[60] = BKING ∧ p.b[56] = BROOK
   epOk : ∀ e : Sq, p.ep = some e → epPlausible p.b p.wtm e
-  hmcLt : p.hmc < 2 ^ 31
-  fmcLt : p.fmc < 2 ^ 31
+  hmcLt : p.hmc < 65536      -- the reader clamps counters to 0..65535 (repaired readFEN)
+  fmcLt : p.fmc < 65536
 
 instance (p : Pos) : Decidable (WFfenPre p) :=
   decidable_of_iff
@@ -763,7 +770,7 @@ instance (p : Pos) : Decidable (WFfenPre p) :=
      countPc p.b WKING = 1 ∧ countPc p.b BKING = 1 ∧ inCheck p.b (!p.wtm) = false ∧ p.castle < 16 ∧
      (p.castle &&& 2 ≠ 0 → p.b[4] = WKING ∧ p.b[7] = WROOK) ∧ (p.castle &&& 1 ≠ 0 → p.b[4] = WKING ∧ p.b[0] = WROOK) ∧
      (p.castle &&& 8 ≠ 0 → p.b[60] = BKING ∧ p.b[63] = BROOK) ∧ (p.castle &&& 4 ≠ 0 → p.b[60] = BKING ∧ p.b[56] = BROOK) ∧
-     (∀ e : Sq, p.ep = some e → epPlausible p.b p.wtm e) ∧ p.hmc < 2 ^ 31 ∧ p.fmc < 2 ^ 31)
+     (∀ e : Sq, p.ep = some e → epPlausible p.b p.wtm e) ∧ p.hmc < 65536 ∧ p.fmc < 65536)
     ⟨fun ⟨a, b, c, d, e, f, g, h, i, j, k, m, n⟩ => ⟨a, b, c, d, e, f, g, h, i, j, k, m, n⟩,
      fun w => ⟨w.codes, w.pawns, w.wking, w.bking, w.notInCheck, w.castleLt, w.castleK, w.castleQ, w.castlek,
                w.castleq, w.epOk, w.hmcLt, w.fmcLt⟩⟩
@@ -810,7 +817,7 @@ theorem readFENRaw_toFEN_general (p : Pos) (w : WFfenPre p) :
   obtain ⟨f0, f1⟩ := digits_words p.fmc
   have hcf : castleFix p.b p.castle = p.castle := castleFix_id { p with ep := none } w.clearEp
   rw [fenReadRest_words _ _ _ _ _ _ c0 c1 e0 e1 h0 h1 f0 f1, parseCastle_castleToString _ w.castleLt]
-  simp only [Except.bind, hwtm, hcf, stoi_toDigits _ w.hmcLt, stoi_toDigits _ w.fmcLt, Option.getD_some]
+  simp only [Except.bind, hwtm, hcf, counterOfWord_toDigits _ w.hmcLt, counterOfWord_toDigits _ w.fmcLt]
   have hep : epField p.b p.wtm (epChars p.ep ++ ' ' :: (Nat.toDigits 10 p.hmc ++ ' ' :: Nat.toDigits 10 p.fmc)) = .ok p.ep := by
     cases hpe : p.ep with
     | none => exact epField_dash _ _ _
